@@ -156,6 +156,7 @@ class Model:
     def __init__(self):
         self._next_bool = 1
         self._vars = {}
+        self._unnamed = set()  # names the model made up itself: searched like any variable, left out of the report
         self._constraints = []
 
     def _new_bool_var(self):
@@ -165,7 +166,11 @@ class Model:
 
     def int_var(self, lb, ub, name=None):
         if name is None:
-            name = f"_v{len(self._vars)}"
+            k = len(self._vars)
+            while f"_v{k}" in self._vars:  # a caller may have used the spelling for a variable of their own
+                k += 1
+            name = f"_v{k}"
+            self._unnamed.add(name)
         if name in self._vars:
             # both back-ends look variables up by name: a second variable of the same name would replace the first
             raise ValueError(f"variable name {name!r} is already in use")
@@ -323,11 +328,12 @@ class Model:
             iterations[0] += 1
 
             # Check if all assigned
-            # unnamed variables (auto-named `_v...`) are searched like any other; only the report leaves them out
+            # unnamed variables (auto-named `_v...`) are searched like any other; only the report leaves them out -
+            # by what the model recorded, not by spelling: a caller's own `_x` is a named variable
             unassigned = [n for n in domains if len(domains[n]) > 1]
             if not unassigned:
                 # Found solution
-                sol = {n: next(iter(d)) for n, d in domains.items() if not n.startswith("_")}
+                sol = {n: next(iter(d)) for n, d in domains.items() if n not in self._unnamed}
                 solutions.append(sol)
                 return len(solutions) >= solution_limit
 
